@@ -6,6 +6,7 @@
            sv/molecule_indels.py:116-156 and sv/segment_indels.py:159-205 (the call constructor).
 -/
 import Coma.Sort
+import Coma.Conflict
 namespace Coma
 
 /-- one line of the indel list: [Type, Chromosome, RefStart, RefStop, QueryId(s), QueryStart,
@@ -76,5 +77,56 @@ def mkCall (lo : Int) (chrom qid rs re qs qe : Int) : Option Call :=
     some { isIns := decide (diff < -lo), chrom := chrom, rStart := rs, rStop := re, qids := [qid],
            qStart := qs, qStop := qe, length := (diff : Rat), count := 1 }
   else none
+
+/-! ### the loops around the constructor (sv/segment_indels.py:159-205, sv/molecule_indels.py:116-156) -/
+
+/-- Python `xs[i]` for a possibly negative index (wraps once), IndexError outside -/
+def pyIndex (xs : List Int) (i : Int) : Except Err Int :=
+  let j := if i < 0 then (xs.length : Int) + i else i
+  if j < 0 then .error .indexError
+  else match xs[j.toNat]? with
+    | some v => .ok v
+    | none   => .error .indexError
+
+/-- coordinates of the two flanking pairs `a`, `b` (reference site, query site) in the two maps:
+    `positions[siteId - 1]` four times, then the constructor -/
+def callAt (lo chrom qid : Int) (rpos qpos : List Int) (a b : Int × Int) : Except Err (Option Call) := do
+  let rs ← pyIndex rpos (a.1 - 1)
+  let qs ← pyIndex qpos (a.2 - 1)
+  let re ← pyIndex rpos (b.1 - 1)
+  let qe ← pyIndex qpos (b.2 - 1)
+  return mkCall lo chrom qid rs re qs qe
+
+/-- `segment_indels.look_for_indels_in_breakage` for one alignment: every breakage index `i` with
+    `len(alignedPairs) > i + 1` yields the call between pairs `i` and `i + 1` (threshold 100) -/
+def segmentCalls (chrom qid : Int) (rpos qpos : List Int) (pairs : List (Int × Int)) : List Int → Except Err (List Call)
+  | []      => .ok []
+  | i :: is => do
+    let rest ← segmentCalls chrom qid rpos qpos pairs is
+    if (pairs.length : Int) > i + 1 then
+      -- Python indexing: a negative breakage index wraps
+      let geti (k : Int) : Except Err (Int × Int) :=
+        let j := if k < 0 then (pairs.length : Int) + k else k
+        if j < 0 then .error .indexError else
+        match pairs[j.toNat]? with
+        | some p => .ok p
+        | none   => .error .indexError
+      let b ← geti (i + 1)
+      let a ← geti i
+      match ← callAt 100 chrom qid rpos qpos a b with
+      | some c => return c :: rest
+      | none   => return rest
+    else return rest
+
+/-- `molecule_indels.look_for_indels_in_breakage` for one alignment: the breakage pair is given (it comes
+    from the un-joined records), the next pair is `alignedPairs[index + 1]` (IndexError past the end), threshold 2000 -/
+def moleculeCall (chrom qid : Int) (rpos qpos : List Int) (pairs : List (Int × Int)) (index : Int) (bp : Int × Int) :
+    Except Err (Option Call) := do
+  let k := index + 1
+  let j := if k < 0 then (pairs.length : Int) + k else k
+  if j < 0 then throw .indexError
+  match pairs[j.toNat]? with
+  | none   => throw .indexError
+  | some b => callAt 2000 chrom qid rpos qpos bp b
 
 end Coma
